@@ -1,0 +1,19 @@
+//go:build verif
+
+package funnel
+
+// Verification hooks (add-only, compiled only with -tags verif): read and
+// override the two retry bounds of Worker.doTaskAttempt, exactly as the
+// package's own tests do by assigning the package variables.
+
+// VerifRetryLimits returns the current (maxRetryAttempts, maxRetryStall).
+func VerifRetryLimits() (attempts, stall int) {
+	return maxRetryAttempts, maxRetryStall
+}
+
+// VerifSetRetryLimits sets both bounds and returns the previous values.
+func VerifSetRetryLimits(attempts, stall int) (oldAttempts, oldStall int) {
+	oldAttempts, oldStall = maxRetryAttempts, maxRetryStall
+	maxRetryAttempts, maxRetryStall = attempts, stall
+	return oldAttempts, oldStall
+}
